@@ -176,6 +176,9 @@ func (opgPubKey *openpgpPubKey) ID() string {
 }
 
 func (opgPubKey *openpgpPubKey) verify(content []byte, sig *packet.Signature) error {
+	if !sig.Hash.Available() {
+		return fmt.Errorf("cannot verify signature: unsupported hash function %d", sig.Hash)
+	}
 	h := sig.Hash.New()
 	h.Write(content)
 	return opgPubKey.pubKey.VerifySignature(h, sig)
